@@ -209,8 +209,8 @@ Proof.
     lia.
 Qed.
 
-Lemma nbytes_code_exact bw size : size < 2 ^ 53 -> nbytes_code bw size = nbytes_bw bw size.
-Proof. intros H. unfold nbytes_code, nbytes_bw, rne53. apply N.ltb_lt in H. rewrite H. reflexivity. Qed.
+Lemma nbytes_code_exact bw size : nbytes_code bw size = nbytes_bw bw size.
+Proof. unfold nbytes_code, nbytes_bw, ceil_div, itemsize_divisor. f_equal. lia. Qed.
 
 Lemma le_pack_length dt bw xs : bitwidth dt = Some bw ->
   N.of_nat (length (le_pack dt xs)) = nbytes_bw bw (N.of_nat (length xs)).
